@@ -48,11 +48,11 @@ impl Hist {
         let op = f();
         let ret = seq();
         // no hook point while the std lock is held
-        self.recs.lock().unwrap().push(Rec { thread, call, ret, op: op.clone() });
+        self.recs.lock().unwrap_or_else(|e| e.into_inner()).push(Rec { thread, call, ret, op: op.clone() });
         op
     }
     pub fn take(&self) -> Vec<Rec> {
-        let mut v = self.recs.lock().unwrap().clone();
+        let mut v = self.recs.lock().unwrap_or_else(|e| e.into_inner()).clone();
         v.sort_by_key(|r| r.call);
         v
     }
